@@ -134,7 +134,9 @@ func runC20(cfg Cfg, keys []string, ops []Op, res *TaskResult) *Violation {
 func c20Cfgs(tier string) []Cfg {
 	mm := defaultCfg
 	mm.IO = 1
-	out := []Cfg{defaultCfg, mm}
+	c200 := defaultCfg
+	c200.FileSize = 200 // a two-put batch fits: it is written (and may rotate the file) inside Commit, not while staging
+	out := []Cfg{defaultCfg, mm, c200}
 	if tier == "thorough" {
 		for _, ix := range []int8{1, 2} {
 			c := defaultCfg
